@@ -1527,3 +1527,56 @@ def weak_upgrade(ex, args, callee):
 @stub('<Weak as Clone>::clone')
 def weak_clone(ex, args, callee):
     return ex.deref_all(args[0])
+
+
+@stub('Vec::dedup_by')
+def vec_dedup_by(ex, args, callee):
+    r = args[0]
+    v = ex.load(r)
+    out = []
+    for e in v.elems:
+        if out:
+            ca, cb = Cell(e, 'dedup-a'), Cell(out[-1], 'dedup-b')
+            same = call_callable(ex, args[1], [Ref(ca, (), True), Ref(cb, (), True)])
+            if ex.choose_bool(same.t):
+                continue
+        out.append(e)
+    ex.store(r, Vec(tuple(out), v.ety))
+    return UNIT
+
+
+@stub('Vec::retain')
+def vec_retain(ex, args, callee):
+    r = args[0]
+    v = ex.load(r)
+    out = []
+    for e in v.elems:
+        c = Cell(e, 'retain-arg')
+        keep = call_callable(ex, args[1], [Ref(c, (), False)])
+        if ex.choose_bool(keep.t):
+            out.append(e)
+    ex.store(r, Vec(tuple(out), v.ety))
+    return UNIT
+
+
+@stub('Vec::clear')
+def vec_clear(ex, args, callee):
+    r = args[0]
+    v = ex.load(r)
+    if isinstance(v, Str):
+        ex.store(r, Str((), v.rty))
+    else:
+        ex.store(r, Vec((), v.ety))
+    return UNIT
+
+
+@stub('slice::first', 'slice::last', 'Vec::first', 'Vec::last')
+def slice_first_last(ex, args, callee):
+    r = args[0]
+    v = ex.deref_all(r)
+    while isinstance(r, Ref) and isinstance(ex.load(r), Ref):
+        r = ex.load(r)
+    if not v.elems:
+        return NONE
+    i = 0 if callee.rstrip().endswith('first') else len(v.elems) - 1
+    return some(Ref(r.cell, r.path + (i,), False))
